@@ -353,6 +353,7 @@ def isa_for(pre_symbols):
 
 def world_for(case, lines):
     argv = ['bespokeasm', 'compile', '-c', 'isa.yaml', 'main.asm']
+    argv += ['-v'] * case.get('verbosity', 0)          # logging level is not supposed to change what is assembled
     for i, (n, v) in enumerate(case['cli_symbols'].items()):
         sp = case.get('cli_spacing', 0)
         eq = ['=', ' = ', ' =', '= '][(sp + i) % 4] if sp else '='
@@ -527,7 +528,8 @@ def make_machine(stats, box):
             self.case['pre_symbols'] = dict(pre)
             self.case['cli_symbols'] = dict(cli)
             self.case['crlf'] = (len(pre) + len(cli)) % 3 == 2
-            self.case['cli_spacing'] = (len(pre) * 2 + len(cli)) % 3       # blanks around '=' / before the name in -D         # some histories are stored with CR LF line ends
+            self.case['cli_spacing'] = (len(pre) * 2 + len(cli)) % 3       # blanks around '=' / before the name in -D
+            self.case['verbosity'] = [0, 0, 1, 2, 3][(len(pre) + 3 * len(cli) + sum(map(len, pre))) % 5]         # some histories are stored with CR LF line ends
             self.model = CondModel(dict(pre), dict(cli))
             stats['histories'] += 1
 
